@@ -673,22 +673,33 @@ impl<'c, Q: Queue> Interp<'c, Q> {
             }
             visited.push((key.id, key.tag, old, p.v));
         });
-        let want_count = match how % 8 {
-            3 => k.min(n),
-            4 => n - k.min(n),
-            5 => (n + k) / (k + 1),
-            _ => n,
+        let matching = before.m.keys().any(|id| *id as usize % (k + 1) == 0) as usize;
+        let want_count = match how % 16 {
+            8 | 9 | 10 => (k < n) as usize,
+            11 | 15 => matching,
+            12 => n.min(1),
+            13 => (k < n) as usize + (k + 1 < n) as usize,
+            14 => k.min(n) + (k < n) as usize,
+            h => match h % 8 {
+                3 => k.min(n),
+                4 => n - k.min(n),
+                5 => (n + k) / (k + 1),
+                _ => n,
+            },
         };
+        if how % 16 >= 8 {
+            self.stats.hit("iter_mut_single_reference_write");
+        }
         let mut ids: Vec<u32> = visited.iter().map(|v| v.0).collect();
         ids.sort_unstable();
         let dup = ids.windows(2).any(|w| w[0] == w[1]);
         if dup {
-            self.fail(Group::Alias, "each_visited_twice", format!("iter_mut internal iteration (how {}) visited an element twice: {:?}", how % 8, ids));
+            self.fail(Group::Alias, "each_visited_twice", format!("iter_mut internal iteration (how {}) visited an element twice: {:?}", how % 16, ids));
         } else if visited.len() != want_count {
             self.fail(
                 Group::IterMutContract,
                 "each_count",
-                format!("iter_mut internal iteration (how {}, k {}) visited {} of {} elements, expected {}", how % 8, k, visited.len(), n, want_count),
+                format!("iter_mut internal iteration (how {}, k {}) visited {} of {} elements, expected {}", how % 16, k, visited.len(), n, want_count),
             );
         }
         let mut changed = 0;
